@@ -42,3 +42,30 @@ theorem broadcast_arrays_graph_correct (env : List (Tensor Int)) (a b carrier : 
          expand_like_eval env b carrier out hcs (bshape_absorb_right _ _ _ hab)⟩
 
 end Ndx.TGraph
+
+namespace Ndx.TGraph
+open Ndx
+
+/-- **C11, `broadcast_arrays`, three operands.**  The common shape is read off `(a + b) + c`; every operand expanded to it
+has NumPy's common shape `broadcast_shapes(a, b, c)` and repeats its operand along the stretched axes. -/
+theorem broadcast_arrays3_graph_correct (env : List (Tensor Int)) (a b c carrier : TG) (ab out : List Nat)
+    (hab : bshape (a.eval env).shape (b.eval env).shape = some ab)
+    (habc : bshape ab (c.eval env).shape = some out)
+    (hc : (carrier.eval env).shape = ((TG.bin .add (.bin .add a b) c).eval env).shape) :
+    ∀ x ∈ [a, b, c],
+      ((TG.expand x (.shape carrier)).eval env).shape = out ∧
+      ∀ ix, ((TG.expand x (.shape carrier)).eval env).get ix = (x.eval env).get (bcastIndex (x.eval env).shape out ix) := by
+  have hcs : (carrier.eval env).shape = out := by
+    rw [hc]
+    simp only [TG.eval]
+    apply bcast2_shape
+    rw [bcast2_shape _ _ _ ab hab]; exact habc
+  have hab_out : bshape ab out = some out := bshape_absorb _ _ _ habc
+  intro x hx
+  simp only [List.mem_cons, List.mem_nil_iff, or_false] at hx
+  rcases hx with rfl | rfl | rfl
+  · exact expand_like_eval env _ carrier out hcs (bshape_into_trans _ ab out (bshape_absorb _ _ _ hab) hab_out)
+  · exact expand_like_eval env _ carrier out hcs (bshape_into_trans _ ab out (bshape_absorb_right _ _ _ hab) hab_out)
+  · exact expand_like_eval env _ carrier out hcs (bshape_absorb_right _ _ _ habc)
+
+end Ndx.TGraph
